@@ -43,6 +43,7 @@ SizeOfM(ty, mode) == CASE ty.k = "prim" -> PrimSize(ty.t)
                        [] ty.k = "word" -> ty.bytes
 SizeOf(ty) == SizeOfM(ty, "declared")
 AlignOf(ty) == AlignOfM(ty, "declared")
-\* the length `|x|` of an array with n elements, however it is passed
+\* the length `|x|` of an array with n elements, however it is passed and wherever it is stored (a variable, a
+\* constant, a member, an element of a longer or shorter outer array)
 LenOf(n, mode) == n
 =============================================================================
